@@ -278,13 +278,27 @@ class History:
             # arrive pass by pass (a key is available once its root's secret has been added)
             if self.kc is None:
                 self.kc = net.keychain()
-                for j, root in enumerate(self.keys.roots):
-                    self.kc.add_key_paths(root.public_copy(), [self.keys.path[i] for i in range(len(self.keys.d)) if self.keys.root_of[i] == j])
-                self.kc.add_p2s_scripts(scripts)
+                # the same leaves can be described from the master ("a/b...") or from an account node ("b..."): histories
+                # alternate, so that keychains living in one process describe one leaf under different (root, path) pairs
+                self.kc_via_account = self.rng.random() < 0.5
                 self.kc_roots = set()
+                if not self.kc_via_account:
+                    for j, root in enumerate(self.keys.roots):
+                        self.kc.add_key_paths(root.public_copy(), [self.keys.path[i] for i in range(len(self.keys.d)) if self.keys.root_of[i] == j])
+                else:
+                    for j, root in enumerate(self.keys.roots):
+                        for acct in ("0", "1", "2"):
+                            rest = [self.keys.path[i].split("/", 1)[1] for i in range(len(self.keys.d))
+                                    if self.keys.root_of[i] == j and self.keys.path[i].split("/", 1)[0] == acct]
+                            if rest:
+                                self.kc.add_key_paths(root.subkey_for_path(acct).public_copy(), rest)
+                self.kc.add_p2s_scripts(scripts)
             for k in sorted(key_indices):
                 self.kc_roots.add(self.keys.root_of[k])
-            self.kc.add_secrets([self.keys.roots[j] for j in sorted(self.kc_roots)])
+            if not self.kc_via_account:
+                self.kc.add_secrets([self.keys.roots[j] for j in sorted(self.kc_roots)])
+            else:
+                self.kc.add_secrets([self.keys.roots[j].subkey_for_path(acct) for j in sorted(self.kc_roots) for acct in ("0", "1", "2")])
             st, r = observe(tx.sign, self.kc, p2sh_lookup=self.kc, **kwargs)
             self.rec.ev("Tx.sign(keychain_hd)")
         else:
@@ -400,7 +414,7 @@ class History:
         uncompressed_needed = any(not c for p in self.puzzles for c in p.compressed)
         if mech == "keychain" and False:
             pass
-        scenario = rng.choice(["all", "all", "two_pass", "idx_set", "one_key_at_a_time", "wrong_keys"])
+        scenario = rng.choice(["all", "all", "two_pass", "idx_set", "one_key_at_a_time", "wrong_keys", "resign_after_edit"])
         self.scenario = scenario + "/" + mech
         n = len(self.puzzles)
         before = self.frame()
@@ -453,6 +467,29 @@ class History:
                     if i not in valid_now:
                         self.signed_keys[i] |= (eff & set(p.key_idx))
                 cur, _ = self.check_step(cur, set(range(n)), valid_now, "key %d" % k)
+        elif scenario == "resign_after_edit":
+            # sign everything, then the caller edits the transaction (stale signatures stay in place) and signs again
+            keys = {k for p in self.puzzles for k in p.key_idx}
+            if self.sign_with(keys, mech):
+                eff = self.effective_keys(keys, mech)
+                for i, p in enumerate(self.puzzles):
+                    self.signed_keys[i] |= (eff & set(p.key_idx))
+                mid, _ = self.check_step(before, set(range(n)), set(), "first")
+                edit = rng.choice(["out_value", "lock_time", "add_output", "sequence"])
+                if edit == "out_value":
+                    self.tx.txs_out[0].coin_value += 1
+                elif edit == "lock_time":
+                    self.tx.lock_time += 1
+                elif edit == "add_output":
+                    self.tx.txs_out.append(self.net.tx.TxOut(3, b"\x51"))
+                else:
+                    self.tx.txs_in[-1].sequence ^= 2
+                self.log.append({"edit": edit})
+                still_valid = {i for i in range(n) if self.tx.is_solution_ok(i, flags=self.flags)}
+                self.rec.ev("resign.inputs_invalidated_by_edit", n - len(still_valid))
+                mid2 = self.frame()
+                if self.sign_with(keys, mech):
+                    self.check_step(mid2, set(range(n)), still_valid, "resign")
         else:   # wrong_keys: keys that are not listed, or too few
             listed = {k for p in self.puzzles for k in p.key_idx}
             others = [k for k in range(len(self.keys.d)) if k not in listed]
@@ -466,7 +503,7 @@ class History:
                     self.signed_keys[i] |= (eff & set(p.key_idx))
                 self.check_step(before, set(range(n)), set(), "wrong_keys")
         kinds = tuple(sorted(p.brief() for p in self.puzzles))
-        self.rec.case((self.netcode, kinds, tuple(tuple(p.compressed) for p in self.puzzles), self.hash_type, self.scenario, tuple(tuple(s["keys"]) for s in self.log)))
+        self.rec.case((self.netcode, kinds, tuple(tuple(p.compressed) for p in self.puzzles), self.hash_type, self.scenario, tuple(tuple(s.get("keys") or [s.get("edit")]) for s in self.log)))
         self.rec.ev("scenario:" + scenario)
         self.rec.ev("net:" + self.netcode)
 
